@@ -11,6 +11,34 @@ STMT_NOTE = ("Trusted base: TLC; the renderer from feature records to Rust text 
              "the bounded feature space stated in the evidence.")
 
 CHECKS = {
+    "C01": dict(
+        text="TLC checks UniqueInRange on every pre-state of BreadlogRun (IDs incl. 0 and the maximum, unusable/ignored statements, "
+             "every lock value, cache on/off); TLC's own initial states are dumped and replayed on the binary in two ID embeddings "
+             "(base 0 and MaxId = u32::MAX) and both styles; Observe.tla judges every recorded run.",
+        technique="TLA+ model checked by TLC + replay of TLC-enumerated pre-states judged by trace validation (Observe.tla)",
+        ref="5 C01", note=RUN_NOTE),
+    "C02": dict(
+        text="TLC checks LockDominates/NoReuse over histories of runs and developer edits with an I/O failure and a stop signal per "
+             "run (kill and lock-write failure are refuted by TLC as expected: known findings); simulated model histories and fault "
+             "sweeps with follow-up edits are replayed; Observe.tla keeps the ghost relation ID -> statement across each history.",
+        technique="TLA+ model of histories checked by TLC + replay of simulated behaviours and fault sweeps judged by Observe.tla",
+        ref="5 C02", note=RUN_NOTE),
+    "C05": dict(
+        text="TLC checks VerdictExact / ReportedExact / CheckPredictsEdit on BreadlogRun; check-edit-check sequences on TLC's "
+             "pre-states are executed and judged by Observe.tla, including (file, line, column) of every report against the insertion "
+             "offsets of the following edit.",
+        technique="TLA+ model checked by TLC + replay judged by Observe.tla with an independent line/column counter",
+        ref="5 C05", note=RUN_NOTE),
+    "C06": dict(
+        text="TLC checks FixpointCheck / FixpointEdit over three-run histories; check-edit-check-edit plus a read-back step are "
+             "executed on TLC's pre-states and judged by Observe.tla.",
+        technique="TLA+ model checked by TLC + four-step replay judged by Observe.tla",
+        ref="5 C06", note=RUN_NOTE),
+    "C16": dict(
+        text="TLC checks the switch/default/error-exit invariants of BreadlogRun; the whole configuration space is replayed, also as "
+             "two-run histories, and judged by Observe.tla.",
+        technique="TLA+ model checked by TLC + exhaustive replay of the configuration space judged by Observe.tla",
+        ref="5 C16", note=RUN_NOTE),
     "C04": dict(
         text="TLC checks the action property CheckReadOnly on BreadlogRun (every configuration, fault, signal and kill "
              "placement of a check run); every recorded --check execution over the configuration space and under faults "
